@@ -13,7 +13,7 @@ import black_it.calibrator as cal
 from black_it.loss_functions.minkowski import MinkowskiLoss
 from black_it.samplers.base import BaseSampler
 from black_it.schedulers.round_robin import RoundRobinScheduler
-from harness.common import Case
+from harness.common import Case, inject
 from symx.core import Sym, lift
 
 LEVEL = "model_checking"
@@ -97,7 +97,7 @@ def case_step(mutator, L):
                 if a < b:
                     ctx.solver.add(ids[a].t != ids[b].t)
         table = {CLASSES[i].__name__: ids[i] for i in present}
-        c.samplers_id_table = table
+        inject(c, "samplers_id_table", table)
         before = dict(table)
         seq = [int(ctx.int(f"cls{p}", 0, NCLS - 1)) for p in range(L)]
         new_samplers = [CLASSES[k](1) for k in seq]
